@@ -1198,3 +1198,45 @@ def private_to(facts, root_id, fid, seen=()):
         return private_to(facts, root_id, re.sub(r"::\{closure#\d+\}$", "", fid), seen + (fid,))
     callers = facts.callers_of(fid)
     return bool(callers) and all(private_to(facts, root_id, h.id, seen + (fid,)) for h, b2, t2 in callers)
+
+
+def header_lookup_atom(facts, c):
+    """Is the path condition c the outcome of looking a header up by name?  -> (name, found: bool) or None.
+    Recognised: `iter().any(|h| h.field.equiv(NAME))` and friends; `iter().find / position / find_map / filter+next` with NAME in the closure;
+    and a call of a function of the crate that takes the header list and the NAME and returns an Option / a bool (a shared lookup helper,
+    whatever it is called and wherever it lives)."""
+    import absint, framing_rules as FRM
+    if not c:
+        return None
+    def helper_lookup(call):
+        g = facts.fns.get(call[1])
+        if g is None or not g.rec.get("local") or "{closure" in call[1]:
+            return None
+        ptys = [g.local_ty(i) for i in range(1, g.argc + 1)]
+        if not any("common::Header" in t for t in ptys) or not any(re.search(r"&('\w+ )?str\b", t) for t in ptys):
+            return None
+        lits = [x for a in call[2] for x in absint.str_consts(a)]
+        return lits[0] if len(set(lits)) == 1 else None
+    if c[0] == "variant" and c[2] in ("Some", "None") and c[3]:
+        h = absint.head_call(c[3])
+        if h is not None:
+            name = helper_lookup(h)
+            if name is not None:
+                return (name, c[2] == "Some")
+            if re.search(r"Iterator>::(find|next|find_map|position)$", h[1]):
+                lits = set(FRM.term_lits(facts, h))
+                if len(lits) == 1:
+                    return (lits.pop(), c[2] == "Some")
+    if c[0] == "scalar" and isinstance(c[2], bool):
+        v, val = c[1], c[2]
+        while v and v[0] == "unop" and v[1] == "Not":
+            v, val = v[2], not val
+        if v and v[0] == "call":
+            name = helper_lookup(v)
+            if name is not None and facts.fns[v[1]].local_ty(0) == "bool":
+                return (name, val)
+            if re.search(r"Iterator>::any$|Iterator>?::any(::<|$)", v[1]):
+                lits = set(FRM.term_lits(facts, v))
+                if len(lits) == 1:
+                    return (lits.pop(), val)
+    return None
